@@ -58,6 +58,8 @@ def gen(rng, tier, index):
             if o != "ok":
                 outcomes[s] = o
         steps.append({"tag": f"_{k + 1}", "outcomes": outcomes, "any": k > 0 and rng.random() < 0.3})
+        if not steps[-1]["any"] and rng.random() < 0.25:
+            steps[-1]["func"] = True  # function-based app with mutable constructor arguments
     writer = rng.choice(["seqs", "seqs", "json", "db"])
     parallel = rng.random() < 0.75
     plan = {
@@ -138,8 +140,11 @@ def build_app(plan, data_store=None, with_writer=True):
         app = nxt if app is None else app + nxt
         names.append("min_length")
     for k, st in enumerate(plan["steps"]):
-        cls = va.planned_any if st.get("any") else va.STEP_CLASSES[k % 3]
-        nxt = cls(st["tag"], dict(st["outcomes"]))
+        cls = va.planned_any if st.get("any") else va.planned_func if st.get("func") else va.STEP_CLASSES[k % 3]
+        if st.get("func"):
+            nxt = cls(tag=st["tag"], outcomes=dict(st["outcomes"]), seen=[])
+        else:
+            nxt = cls(st["tag"], dict(st["outcomes"]))
         app = nxt if app is None else app + nxt
         names.append(cls.__name__)
     if with_writer:
@@ -562,6 +567,8 @@ def run(plan, tier="quick", real_pool=False) -> RunResult:
     res.sim_time = pool.time
     if pool.reordered:
         res.probe("delivery-reordered")
+    if any(st.get("func") for st in plan["steps"]):
+        res.probe("function-based-step-with-mutable-arguments")
     if any(n > 1 for n in pool.done_sizes):
         res.probe("several-finished-at-once")
     if plan["parallel"]:
@@ -570,7 +577,7 @@ def run(plan, tier="quick", real_pool=False) -> RunResult:
     for inp in plan["inputs"]:
         p = predict(plan, inp, ([] if plan["input_form"] == "objects" else ["load_unaligned"]) +
                     (["min_length"] if plan["min_length"] else []) +
-                    ["planned_any" if st.get("any") else ["planned", "planned2", "planned3"][k % 3]
+                    ["planned_any" if st.get("any") else "planned_func" if st.get("func") else ["planned", "planned2", "planned3"][k % 3]
                      for k, st in enumerate(plan["steps"])] + ["writer"])
         outcome_pattern.append(f"{p[0][0]}{p[1] or ''}")
         res.probe(f"outcome:{p[1] or 'completed'}")
@@ -642,6 +649,6 @@ EVIDENCE = {
         "the source field of a failure caused by a wrong-typed intermediate value is not asserted (such a value carries no source)",
     ],
     "expected_probes": ["delivery-reordered", "several-finished-at-once", "outcome:ERROR", "outcome:BUG",
-                        "outcome:FALSE", "outcome:completed"],
+                        "outcome:FALSE", "outcome:completed", "function-based-step-with-mutable-arguments"],
     "explanation": "C14 runs real apply_to/as_completed on a simulated pool and compares the store with per-input references.",
 }
